@@ -52,7 +52,7 @@ def teardown(ctx, R):
 
 def cases(tier, seed):
     out = []
-    maxn = 6 if tier == "quick" else 10
+    maxn = 6 if tier == "quick" else 16
     nseeds = 3 if tier == "quick" else 12
     idx = 0
     for ratio in (0.0, 0.3, 0.6, 0.8):
